@@ -2,6 +2,7 @@ package main
 
 import (
 	"fmt"
+	"os"
 	"sort"
 	"strings"
 
@@ -188,6 +189,14 @@ func checkFormatLoader(p *Program, r *Report, pre, short string) {
 	pos := p.FnPos(L)
 
 	e, outs, inlined, isR := runLoader(p, L)
+	if os.Getenv("PRISMCHECK_TRACE") != "" {
+		for _, o := range outs {
+			fmt.Println("--- loader outcome", o.Kind, p.Pos(o.Pos), "ret", trunc(valKey(o.Ret), 300))
+			for _, ev := range o.St.events {
+				fmt.Printf("    ev %s %s recv=%s args=%s res=%s\n", ev.Kind, ev.Fn, trunc(valKey(ev.Recv), 100), trunc(valKey(Tuple(ev.Args)), 300), trunc(valKey(ev.Res), 100))
+			}
+		}
+	}
 
 	ob := newObligations()
 	parsers := map[*ssa.Function]bool{}
